@@ -301,6 +301,18 @@ Proof.
   - intros r Hr. apply c13_router_nil. apply (flat_map_nil _ _ H r Hr).
 Qed.
 
+Definition C13_named_on (n : netlist) (exp : list (string * (Z * Z))) : Prop :=
+  forall nm s e, In (nm, (s, e)) exp ->
+    exists k r, enum_value (n_sam_enum n) nm = Some k /\ sam_at n k = Some r /\ sr_start r = s /\ sr_end r = e.
+Theorem chk_C13n_sound n exp : chk_C13n n exp = [] -> C13_on n /\ C13_named_on n exp.
+Proof.
+  unfold chk_C13n. intros H. apply app_nil in H. destruct H as (H1 & H2). split; [apply chk_C13_sound; exact H1|].
+  intros nm s e Hin. pose proof (flat_map_nil _ _ H2 _ Hin) as X. unfold c13_named in X. cbn [fst snd] in X.
+  destruct (enum_value (n_sam_enum n) nm) as [k|] eqn:Ek; [|discriminate]. destruct (sam_at n k) as [r|] eqn:Er; [|discriminate].
+  apply guard_nil in X. apply andb_true_iff in X. destruct X as (X1 & X2). apply Z.eqb_eq in X1, X2.
+  exists k, r. split; [reflexivity|]. split; [exact Er|]. split; assumption.
+Qed.
+
 (* ------------------------------------------------------------------ C07 *)
 Lemma idv_eqb_eq a b : idv_eqb a b = true -> a = b.
 Proof. destruct a, b; cbn; try discriminate; intros H; f_equal; lia. Qed.
